@@ -205,6 +205,7 @@ Proof.
   - destruct (lpos_of _ _); [|exact HE2]. destruct (filter _ ps); [cbn; discriminate|].
     destruct (one_of_choice _ _ _ _ _) eqn:E; [cbn; discriminate|].
     apply obs_err_head. eapply one_of_err_pos. exact E.
+  - cbn. discriminate.
 Qed.
 
 Lemma history_no_foreign srt ops : forall w,
@@ -504,6 +505,15 @@ Proof.
   - destruct (lpos_of _ _); [|auto]. destruct (filter _ ps); [auto|].
     destruct (one_of_choice _ _ _ _ _); cbn; auto.
 Qed.
+
+(* re-seeding changes no collection: whatever was derivable before a reset evaluates to the same collection, with
+   the same generator, after it - at any later point of a history that contains only resets in between *)
+Lemma reset_is_transparent srt w : step srt w Reset = (w, [MODEL_GEN; w_sgen w]).
+Proof. reflexivity. Qed.
+
+Lemma resets_preserve_derivations srt n w d :
+  eval (final srt w (repeat Reset n)) d = eval w d /\ final srt w (repeat Reset n) = w.
+Proof. induction n as [|n IH]; cbn; [split; reflexivity|]. exact IH. Qed.
 
 Lemma registry_order_is_creation_order srt ops : forall w,
   1 <= w_next w -> reg_ok w -> reg_ok (final srt w ops).
